@@ -689,7 +689,7 @@ func TestReplay(t *testing.T) {
 		t.Fatalf("INFRA: %v", err)
 	} else if ok {
 		for i := 0; i < vh.ReplayRuns(); i++ {
-			recS.Check(t, &c, func() vh.Outcome { return runCase(t, &c, 1) })
+			recS.Check(t, &c, func() vh.Outcome { return vh.Confirm(func(m int) vh.Outcome { return runCase(t, &c, m) }) })
 		}
 		return
 	}
